@@ -134,6 +134,9 @@ func ShapesFor(f Field, c *Counter, gob bool) []Shaped {
 			l := ap.ItemCollection{c.ID("i"), &ap.Object{ID: c.ID("o"), Type: ap.NoteType}}
 			var it ap.Item = &l
 			shapes = append(shapes, Shaped{"listptr", reflect.ValueOf(&it).Elem()})
+			// a list of IRIs under its own type: stored as one, read back as one
+			var iris ap.Item = ap.IRIs{c.ID("i"), c.ID("j")}
+			shapes = append(shapes, Shaped{"iris", reflect.ValueOf(&iris).Elem()})
 		}
 		for _, s := range shapes {
 			v := reflect.New(ft).Elem()
